@@ -3,6 +3,7 @@ import CookModel.Lemmas.ArithRat
 import CookModel.Lemmas.Convert
 import CookModel.Lemmas.ConvertExample
 import CookModel.Lemmas.ConvertMore
+import CookModel.Lemmas.BuilderBridge
 /-
   C09  Unit conversion preserves the physical amount.
 
@@ -358,6 +359,147 @@ theorem C09_recipe_convert_every_quantity {c : Converter Rat} (hc : c.Sound) (to
     exact ⟨convResult c to t.quantity, by rw [ht, List.getElem?_map, hk]; rfl, cvm_convResult_converted hc to _⟩
   · intro k q hk
     exact ⟨(convertImpl c q (.best to)).1, by rw [hq, List.getElem?_map, hk]; rfl, cvm_convResult_converted hc to (some q)⟩
+
+/-! ## every converter the builder can produce (bridge from C16, notes/audit-C09.md "Gaps left")
+
+  `Bld.BuiltAs files c`: the builder model (C16) builds the layers `files` successfully, no ratio in them is zero
+  (`Bld.ratiosNonzero`, decidable), and `c` is the result read as the converter of this model (`Bld.convOfBuilt`,
+  Side/BuilderConv.lean).  `C16_built_converter_sound` proves `Converter.Sound` of every such `c`; hence all theorems
+  above that assume `c.Sound` hold of it, whatever the layers are (other languages, renamed units, other best lists,
+  extend blocks, SI expansion): -/
+
+/-- every converter built from units files without a zero ratio is sound (= `C16_built_converter_sound`) -/
+theorem C09_built_sound {files : List (Bld.UnitsFile Rat)} {c : Converter Rat} (hbuilt : Bld.BuiltAs files c) :
+    c.Sound ∧ c.wf = true := ⟨hbuilt.sound, hbuilt.wf⟩
+
+/-- `C09_convert_in_converter` for every converter the builder makes of units files without a zero ratio -/
+theorem C09_convert_in_converter_built {files : List (Bld.UnitsFile Rat)} {c : Converter Rat}
+    (hbuilt : Bld.BuiltAs files c) (v : Rat) {a b m : Unit Rat}
+    (ha : a ∈ c.allUnits) (hb : b ∈ c.allUnits) (hm : m ∈ c.allUnits)
+    (hab : a.pq = b.pq) (ham : a.pq = m.pq) :
+    ∃ w w1, convertF64 v a b = some w ∧ amount w b = amount v a ∧ convertF64 w b a = some v ∧
+      convertF64 v a m = some w1 ∧ convertF64 w1 m b = some w :=
+  C09_convert_in_converter hbuilt.sound v ha hb hm hab ham
+
+/-- `C09_convert_preserves_amount` for every converter the builder makes of units files without a zero ratio -/
+theorem C09_convert_preserves_amount_built {files : List (Bld.UnitsFile Rat)} {c : Converter Rat}
+    (hbuilt : Bld.BuiltAs files c) (q q' : SQuantity Rat)
+    (to : ConvertTo Rat) (hto : ∀ x, to = .unit (.unit x) → x ∈ c.allUnits)
+    (h : convertImpl c q to = (q', .ok ())) :
+    ∃ u nu, unitInfo c q = some u ∧ unitInfo c q' = some nu ∧ nu.pq = u.pq ∧
+      q'.value.parts.map (fun x => amount x nu) = q.value.parts.map (fun x => amount x u) ∧
+      (∀ tu, to = .unit tu → c.getUnit tu = .ok nu) :=
+  C09_convert_preserves_amount hbuilt.sound q q' to hto h
+
+/-- `C09_best_in_designated_list` for every converter the builder makes of units files without a zero ratio -/
+theorem C09_best_in_designated_list_built {files : List (Bld.UnitsFile Rat)} {c : Converter Rat}
+    (hbuilt : Bld.BuiltAs files c) (q q' : SQuantity Rat) :
+    (∀ s, convertImpl c q (.best s) = (q', .ok ()) →
+      ∃ u nu, unitInfo c q = some u ∧ unitInfo c q' = some nu ∧
+        nu ∈ ((c.best u.pq).conversions s).unitsOf) ∧
+    (convertImpl c q .sameSystem = (q', .ok ()) →
+      ∃ u nu, unitInfo c q = some u ∧ unitInfo c q' = some nu ∧
+        nu ∈ ((c.best u.pq).conversions (u.system.getD c.defaultSystem)).unitsOf) :=
+  C09_best_in_designated_list hbuilt.sound q q'
+
+/-- `C09_fit_preserves_amount` for every converter the builder makes of units files without a zero ratio -/
+theorem C09_fit_preserves_amount_built {files : List (Bld.UnitsFile Rat)} {c : Converter Rat}
+    (hbuilt : Bld.BuiltAs files c) (q q' : SQuantity Rat)
+    (h : fit c q = (q', .ok ())) :
+    (unitInfo c q = none ∧ q' = q) ∨
+    ∃ u nu, unitInfo c q = some u ∧ unitInfo c q' = some nu ∧ nu.pq = u.pq ∧
+      q'.value.parts.map (fun x => amount x nu) = q.value.parts.map (fun x => amount x u) ∧
+      (nu ∈ ((c.best u.pq).conversions (u.system.getD c.defaultSystem)).unitsOf
+        ∨ (u.system = none ∧ nu = u)) :=
+  C09_fit_preserves_amount hbuilt.sound q q' h
+
+/-- `C09_error_implies_unchanged` for every converter the builder makes of units files without a zero ratio -/
+theorem C09_error_implies_unchanged_built {files : List (Bld.UnitsFile Rat)} {c : Converter Rat}
+    (hbuilt : Bld.BuiltAs files c) (q q' : SQuantity Rat)
+    (e : ConvErr) :
+    (∀ to, (∀ x, to = .unit (.unit x) → x ∈ c.allUnits) → convertImpl c q to = (q', .error e) →
+      q' = q ∧ ConvertFailure c q to e ∧ ∀ s, e ≠ .panic s) ∧
+    (fit c q = (q', .error e) → q' = q ∧ ConvertFailure c q .sameSystem e ∧ ∀ s, e ≠ .panic s) :=
+  C09_error_implies_unchanged hbuilt.sound q q' e
+
+/-- `C09_recipe_quantity_dichotomy` for every converter the builder makes of units files without a zero ratio -/
+theorem C09_recipe_quantity_dichotomy_built {files : List (Bld.UnitsFile Rat)} {c : Converter Rat}
+    (hbuilt : Bld.BuiltAs files c) (to : System)
+    (q : SQuantity Rat) :
+    (convErrors c to (some q) = [] ∧
+      ∃ u nu, unitInfo c q = some u ∧ Restated c q u (convertImpl c q (.best to)).1 nu ∧
+        nu ∈ ((c.best u.pq).conversions to).unitsOf) ∨
+    (∃ e, convErrors c to (some q) = [e] ∧ (convertImpl c q (.best to)).1 = q ∧
+      ConvertFailure c q (.best to) e) :=
+  C09_recipe_quantity_dichotomy hbuilt.sound to q
+
+/-- `C09_quantity_roundtrip` for every converter the builder makes of units files without a zero ratio -/
+theorem C09_quantity_roundtrip_built {files : List (Bld.UnitsFile Rat)} {c : Converter Rat}
+    (hbuilt : Bld.BuiltAs files c) (q q1 q2 : SQuantity Rat)
+    (ka kb : Str) (u : Unit Rat) (hu : unitInfo c q = some u) (hka : c.findUnit ka = some u)
+    (h1 : convertImpl c q (.unit (.key kb)) = (q1, .ok ()))
+    (h2 : convertImpl c q1 (.unit (.key ka)) = (q2, .ok ())) :
+    unitInfo c q2 = some u ∧ q2.value.parts = q.value.parts :=
+  C09_quantity_roundtrip hbuilt.sound q q1 q2 ka kb u hu hka h1 h2
+
+/-- `C09_quantity_via_third` for every converter the builder makes of units files without a zero ratio -/
+theorem C09_quantity_via_third_built {files : List (Bld.UnitsFile Rat)} {c : Converter Rat}
+    (hbuilt : Bld.BuiltAs files c) (q q1 q2 q3 : SQuantity Rat)
+    (km kb : Str)
+    (h1 : convertImpl c q (.unit (.key km)) = (q1, .ok ()))
+    (h2 : convertImpl c q1 (.unit (.key kb)) = (q2, .ok ()))
+    (h3 : convertImpl c q (.unit (.key kb)) = (q3, .ok ())) :
+    unitInfo c q2 = unitInfo c q3 ∧ q2.value.parts = q3.value.parts :=
+  C09_quantity_via_third hbuilt.sound q q1 q2 q3 km kb h1 h2 h3
+
+/-- `C09_convert_between_known_succeeds` for every converter the builder makes of units files without a zero ratio -/
+theorem C09_convert_between_known_succeeds_built {files : List (Bld.UnitsFile Rat)} {c : Converter Rat}
+    (hbuilt : Bld.BuiltAs files c) (q : SQuantity Rat)
+    (u t : Unit Rat) (k : Str) (hu : unitInfo c q = some u) (hv : q.value.isText = false)
+    (hk : c.findUnit k = some t) (hq : u.pq = t.pq) :
+    ∃ q', convertImpl c q (.unit (.key k)) = (q', .ok ()) ∧ unitInfo c q' = some t ∧
+      q'.value.parts.map (fun x => amount x t) = q.value.parts.map (fun x => amount x u) :=
+  C09_convert_between_known_succeeds hbuilt.sound q u t k hu hv hk hq
+
+/-- `C09_recipe_convert_every_quantity` for every converter the builder makes of units files without a zero ratio -/
+theorem C09_recipe_convert_every_quantity_built {files : List (Bld.UnitsFile Rat)} {c : Converter Rat}
+    (hbuilt : Bld.BuiltAs files c) (to : System)
+    (r : ScaledRecipe Rat) :
+    (recipeConvert c to r).1.sections = r.sections ∧
+    (recipeConvert c to r).1.cookware = r.cookware ∧
+    (∀ (k : Nat) i, r.ingredients[k]? = some i → ∃ q',
+      (recipeConvert c to r).1.ingredients[k]? = some { i with quantity := q' } ∧
+      QuantityConverted c to i.quantity q') ∧
+    (∀ (k : Nat) t, r.timers[k]? = some t → ∃ q',
+      (recipeConvert c to r).1.timers[k]? = some { t with quantity := q' } ∧
+      QuantityConverted c to t.quantity q') ∧
+    (∀ (k : Nat) q, r.inlineQuantities[k]? = some q → ∃ q',
+      (recipeConvert c to r).1.inlineQuantities[k]? = some q' ∧
+      QuantityConverted c to (some q) (some q')) ∧
+    (recipeConvert c to r).2 = (recipeVisitedQuantities r).flatMap (fun q => convErrors c to (some q)) ∧
+    (∀ q, (convErrors c to q).length ≤ 1) :=
+  C09_recipe_convert_every_quantity hbuilt.sound to r
+
+/-- `C09_convert_to_system_succeeds` (stated there for the shipped converter) for every built converter: the builder
+    rejects a stack that leaves a quantity without best units or with an empty list, so conversion of a numeric or
+    range quantity in a known unit to EITHER system always succeeds, in a unit of that system's list for the quantity,
+    with the same amounts. -/
+theorem C09_convert_to_system_succeeds_built {files : List (Bld.UnitsFile Rat)} {c : Converter Rat}
+    (hbuilt : Bld.BuiltAs files c) (q : SQuantity Rat) (u : Unit Rat) (s : System)
+    (hu : unitInfo c q = some u) (hv : q.value.isText = false) :
+    ∃ q' nu, convertImpl c q (.best s) = (q', .ok ()) ∧
+      unitInfo c q' = some nu ∧ nu.pq = u.pq ∧
+      nu ∈ ((c.best u.pq).conversions s).unitsOf ∧
+      q'.value.parts.map (fun x => amount x nu) = q.value.parts.map (fun x => amount x u) := by
+  obtain ⟨q', nu, h, hr, hl⟩ := cvm_convert_best_succeeds hbuilt.sound q u s hu hv (hbuilt.best_nonempty _ _)
+  exact ⟨q', nu, h, hr.info, hr.pq, hl, hr.amounts⟩
+
+/-- non-vacuity of `Bld.BuiltAs`: the shipped units file builds and has no zero ratio -/
+example : ∃ c, Bld.BuiltAs [Gen.shippedFile] c := by
+  have h : (Bld.build (α := Rat) [Gen.shippedFile]).toOption.isSome = true := by decide +kernel
+  cases hb : Bld.build (α := Rat) [Gen.shippedFile] with
+  | error e => rw [hb] at h; cases h
+  | ok conv => exact ⟨_, conv, hb, by decide +kernel, rfl⟩
 
 /-! ## non-vacuity
 
